@@ -39,6 +39,16 @@ type Run struct {
 	start   time.Time
 	Explain string
 	Assume  []string
+	// borrowing rules of another property: keep only keys with one of these prefixes and rename them
+	keep   []string
+	rename [2]string
+}
+
+// borrow runs rules written for another property and files the selected obligations under this one.
+func (r *Run) borrow(keep []string, from, to string, f func()) {
+	r.keep, r.rename = keep, [2]string{from, to}
+	defer func() { r.keep, r.rename = nil, [2]string{} }()
+	f()
 }
 
 func (r *Run) use(cfg string) *World {
@@ -80,6 +90,18 @@ func (r *Run) seen(fn *ssa.Function) {
 
 // ob records one obligation. key is stable (rule + construct, never a line number).
 func (r *Run) ob(key, rule string, fn *ssa.Function, at ssa.Instruction, ok bool, detail string, nontrivial bool) bool {
+	if r.keep != nil {
+		hit := false
+		for _, k := range r.keep {
+			if strings.HasPrefix(key, k) {
+				hit = true
+			}
+		}
+		if !hit {
+			return ok
+		}
+		key = r.rename[1] + strings.TrimPrefix(key, r.rename[0])
+	}
 	r.seen(fn)
 	o := Obligation{Key: r.key(key), Rule: rule, Config: r.W.Cfg.Name, Nontrivial: nontrivial, Detail: detail}
 	if fn != nil {
